@@ -15,7 +15,7 @@ META = {
              'written again ...) whose last write is compared byte-for-byte with a fresh interpreter that builds the final '
              'specification alone and writes once; signature = the sequence of step kinds; non-trivial when the history '
              'contains at least one earlier write or an earlier foreign file'),
-    'required_obs': {'quick': ['compared', 'both-ok', 'shared-data-struct', 'two-logical-files-late-types'] + ['step-' + k for k in STEP_KINDS]},
+    'required_obs': {'quick': ['compared', 'both-ok', 'shared-data-struct', 'two-logical-files-late-types', 'hdf5-source-replaced'] + ['step-' + k for k in STEP_KINDS]},
     'assumptions': ['origins carry explicit file_set_number and creation_time (the statement exempts random / now() defaults)',
                     'a real fresh interpreter (subprocess) executes the final specification',
                     'supplying the final data inline or through write(data=dict) is equivalent (C11)'],
@@ -30,6 +30,9 @@ def cases(tier, seed):
     # one caller-owned data object (structured array / dict / HDF5 file) re-used for every write of a history
     for j in range(40 if tier == 'quick' else 1000):
         yield {'stratum': 'shared-data-object', 'index': j, 'kind': 'shared-data'}
+    # the HDF5 source file REPLACED on disk (same path, other data) between two writes of one process
+    for j in range(10 if tier == 'quick' else 200):
+        yield {'stratum': 'hdf5-source-replaced', 'index': j, 'kind': 'hdf5-replaced'}
     # two logical files; one of them gets objects of further types only after a first write
     for j in range(24 if tier == 'quick' else 500):
         yield {'stratum': 'two-logical-files-late-types', 'index': j, 'kind': 'two-lf'}
@@ -334,6 +337,15 @@ def run_case(case):
         kinds = [r.choice(['rewrite', 'other-window', 'other-chunks', 'rewrite']) for _ in range(r.randint(1, 3))]
         hist = {'base': base, 'phases': [{'ops': [], 'write': {'output_chunk_size': 2 ** 16}}], 'foreign_before': [], 'shared_data': True}
         bump('shared-data-' + base['write']['source'])
+    elif case['kind'] == 'hdf5-replaced':
+        base = gen.frame_spec(r, sources=('hdf5',), casts=False, nframes=r.choice([1, 2]), fills=('pos',))
+        for k_ in ('from_idx', 'to_idx', 'input_chunk_size', 'perm_seed', 'extra'):
+            base['write'].pop(k_, None)
+        base['write'].update({'output_chunk_size': 2 ** 16, 'h5name': 'history-source.h5'})
+        base.pop('caller_reuses_lists', None)
+        kinds = ['other-data'] * r.choice([1, 2])
+        hist = {'base': base, 'phases': [{'ops': [], 'write': {'output_chunk_size': 2 ** 16}}], 'foreign_before': [], 'arrays_via': 'hdf5-replaced'}
+        bump('hdf5-source-replaced')
     else:
         base = base_spec(r, avoid)
         kinds = [case['step']] if case['kind'] == 'single' else [r.choice(STEP_KINDS) for _ in range(r.randint(1, 5))]
